@@ -89,7 +89,7 @@ func complete(c Cmd) Cmd {
 		if _, ok := out["epic"]; !ok {
 			out["epic"] = ""
 		}
-	case "list_ready":
+	case "list_ready", "list_epic":
 		if _, ok := out["epic"]; !ok {
 			out["epic"] = ""
 		}
@@ -294,7 +294,11 @@ func invocation(c Cmd, ids *IDMap) (args []string, stdin []byte) {
 			args = append(args, "--epic", ids.real(e))
 		}
 	case "list":
+		args = append(args, "list")
+	case "list_all":
 		args = append(args, "list", "--all")
+	case "list_epic":
+		args = append(args, "list", "--epic", ids.real(c.str("epic")))
 	case "list_epics":
 		args = append(args, "list", "--epics")
 	case "show":
@@ -413,7 +417,18 @@ func parseReply(c Cmd, stdout []byte, ids *IDMap) Reply {
 			}
 		}
 		edges()
-	case "list_ready", "list", "list_epics":
+	case "show":
+		var sh showOut
+		var wrap struct {
+			Epic *showOut `json:"epic"`
+		}
+		if json.Unmarshal(stdout, &wrap) == nil && wrap.Epic != nil {
+			sh = *wrap.Epic
+		} else {
+			_ = json.Unmarshal(stdout, &sh)
+		}
+		r.Kind, r.ID, r.State, r.Claim, r.Epic = "show", ids.model(sh.ID), sh.State, sh.ClaimedBy, ids.model(sh.EpicID)
+	case "list_ready", "list", "list_all", "list_epic", "list_epics":
 		for _, it := range arr {
 			x, _ := it["id"].(string)
 			r.IDs = append(r.IDs, ids.model(x))
